@@ -58,7 +58,9 @@ func withWatchdog(t fataler, d time.Duration, what string, f func()) {
 	select {
 	case p := <-done:
 		if p != nil {
-			panic(p) // re-raise in the property goroutine so that rapid records and shrinks it
+			// a panic of the watched call is a failure of what was called, not of the harness: report it as such
+			// (re-raising it here would leave a traceback that names only harness frames)
+			t.Fatalf("%s panicked: %v", what, p)
 		}
 	case <-time.After(d):
 		t.Fatalf("watchdog: %s did not return within %v", what, d)
